@@ -22,7 +22,7 @@ ASSUMPTIONS = [
     "GlyphPosition is read as: line laid out in visual order (reverse logical order for right-to-left), pen "
     "moving right by hori_advance, glyph drawn at pen + offset; compared are glyph origins and total advance",
     "one feature per program (GPOS applies features in a fixed script-specific order the property does not fix); "
-    "yAdvance = 0, device/variation offsets null, no placement adjustment of cursively attached glyphs "
+    "yAdvance = 0 (and no varying yAdvance), no placement adjustment of cursively attached glyphs "
     "(documented as unsupported in gpos.rs), MarkMark lookups filter exactly their Mark2Coverage, cursive lookups "
     "ignore marks, no context lookup nested in a context lookup; GDEF may be absent, lack a GlyphClassDef or leave "
     "mark-coverage glyphs unclassified / classed as bases (what then counts as a mark when the preceding base is "
@@ -31,6 +31,10 @@ ASSUMPTIONS = [
     "advance; whether cross-stream values shift the right glyph across the line or are ignored is a named choice "
     "(Dev_KernCrossStream)",
     "Distance(0,0) and None are one abstract placement",
+    "variation deltas: the instance is given as normalised coordinates (Tuple); regions are well formed and chosen so "
+    "that per-axis scalars are multiples of 1/4 (exact in f32 and in TLC's integers); a delta exactly halfway between "
+    "two integers may be rounded away from zero or up (Dev_DeltaRoundTie); hinting Device tables (delta formats 1-3) "
+    "say nothing about design-unit positions",
 ]
 
 MARK = 3
@@ -48,7 +52,11 @@ VAC_TAGS = tuple("vac:" + t for t in (
     "comb-mark-on-mark-on-chain", "comb-attached-mark-skipped-by-join", "comb-mark-on-chain-of-3-or-more",
     "comb-ligature-component-mark-then-join", "comb-displaced-glyph-inside-chain",
     "comb-displaced-base-with-mark-beside-chain", "comb-kerning-after-chain-before-marked-glyph",
-    "comb-kerning-inside-chain-with-marks", "comb-kern-table-with-chain-and-marks", "comb-without-gdef"))
+    "comb-kerning-inside-chain-with-marks", "comb-kern-table-with-chain-and-marks", "comb-without-gdef",
+    # variation deltas behind value records and anchors (MC_Gpos!VarTags)
+    "var-shaped-without-tuple", "var-tuple-without-store", "var-advance-delta-applied", "var-placement-delta-applied",
+    "var-placement-from-delta-alone", "var-mark-anchor-delta-applied", "var-cursive-anchor-delta-applied",
+    "var-reading-round-tie-matters", "var-instance-where-no-delta-applies"))
 # ... and families the random programs of record mode must reach (counted by the harness)
 REC_FAMILIES = ("programs_gpos_without_gdef", "programs_gdef_without_glyphclassdef",
                 "programs_mark_coverage_not_gdef_mark", "events_attached_mark_not_gdef_mark",
@@ -56,7 +64,10 @@ REC_FAMILIES = ("programs_gpos_without_gdef", "programs_gdef_without_glyphclassd
                 "programs_comb", "programs_comb_rtl_flag", "programs_comb_flag_clear", "programs_comb_with_kerning",
                 "programs_comb_with_displacement", "programs_comb_with_markmark",
                 "events_input_mark_inside_cursive_pair", "events_input_two_marks_after_cursive_glyph",
-                "events_input_chain_of_3_with_mark")
+                "events_input_chain_of_3_with_mark",
+                "programs_var_with_tuple", "programs_var_without_tuple", "programs_var_tuple_without_store",
+                "programs_var_two_axes", "programs_var_value_record_with_variation_index",
+                "programs_var_value_record_with_hinting_device")
 
 
 # ------------------------------------------------------------------------------------------------
@@ -250,18 +261,22 @@ def _got_class(got):
     return "infos"
 
 
-def _info_key(prog, ident, inp, got):
+def _info_key(prog, ident, inp, got, known=None):
+    # a known deviation named by the SPECIFICATION: TLC computed what that deviation gives for this very case and
+    # allsorts returned exactly that (MC_Gpos!AltsOf / Trace_Gpos!ReportInfos)
+    if known:
+        return "infos|" + known
     causes = _info_causes(prog, inp)
     if causes:
         return "infos|" + "+".join(sorted(causes))
     return "infos|unexplained:%s|%s" % (_family(ident), _got_class(got))
 
 
-def _violations_of(prog, ident, inp, stage, want, got, infos, source, extra):
+def _violations_of(prog, ident, inp, stage, want, got, infos, source, extra, known=None):
     if stage.startswith("pos"):
         keys = _pos_keys(prog, ident, stage, infos, want, got)
     else:
-        keys = [_info_key(prog, ident, inp, got)]
+        keys = [_info_key(prog, ident, inp, got, known)]
     out = []
     for key in keys:
         what = "%s %s on %s: in=%s want %s got %s" % (source, stage, vlib.short(ident, 80), [x["g"] for x in inp],
@@ -346,8 +361,13 @@ def run(ctx):
             if m.get("selftest"):
                 planted_seen = planted_seen or m["stage"] in ("apply", "shape")
                 continue
+            known = None
+            for a in m.get("alt") or []:
+                if m["got"] in a["infos"]:
+                    known = a["key"]
+                    break
             violations.extend(_violations_of(prog, m["id"], m["in"], m["stage"], m["want"], m["got"],
-                                             m.get("infos", []), "generated", {"raw": m.get("raw")}))
+                                             m.get("infos", []), "generated", {"raw": m.get("raw")}, known))
     if not planted_seen:
         raise vlib.ToolError("binding self-check failed: a corrupted expectation was accepted by the replay")
 
@@ -393,7 +413,8 @@ def run(ctx):
         e = by_i[m["i"]]
         violations.extend(_violations_of(e["a"]["prog"], e["case"].split("-", 1)[1], e["a"]["in"], m["stage"], m["want"], m["got"],
                                          e["o"]["infos"], "recorded",
-                                         {"raw": {"ltr": e["o"]["ltr"], "rtl": e["o"]["rtl"]}, "seed": ctx.seed}))
+                                         {"raw": {"ltr": e["o"]["ltr"], "rtl": e["o"]["rtl"]}, "seed": ctx.seed},
+                                         m.get("known") or None))
     if seen_self != {"selftest-infos", "selftest-pos"}:
         raise vlib.ToolError("binding self-check failed: Trace_Gpos accepted a corrupted event (%s rejected)" % sorted(seen_self))
 
